@@ -85,13 +85,16 @@ def _task(job):
             "path": [json.loads(p) for p in path],
             "variant": variant,
             "exception": exc,
+            "adapter_detail": getattr(ctx, "detail", None),
         }
         return (fkey, lab, "mismatch", None, detail, variant)
     finally:
         adapter.cleanup(ctx)
 
 
-def _worker_init():
+def _worker_init(adapter=None, graph=None):
+    if adapter is not None:
+        _G["adapter"], _G["graph"] = adapter, graph
     # cogent3 treats multiprocessing children as non-master processes and then
     # skips creating data-store directories; our workers are independent drivers,
     # so present each as a master process.
@@ -141,7 +144,7 @@ def explore(graph: Graph, init_state, adapter: Adapter, run, *, nproc=None, budg
     skipped = 0
     depth = 0
     ctxm = mp.get_context("fork")
-    with ctxm.Pool(nproc, initializer=_worker_init) as pool:
+    with ctxm.Pool(nproc, initializer=_worker_init, initargs=(adapter, graph)) as pool:
         while frontier:
             jobs = []
             for f in frontier:
